@@ -1,4 +1,5 @@
 import XsgModel.Proofs.Faults
+import XsgModel.Proofs.Carried
 /-!
 # C08 — errors are reported faithfully and only when the input is at fault
 
@@ -195,5 +196,11 @@ theorem C08_ok (evs : List Ev) (h1 : firstFault 0 evs = none) (h2 : hasElement 0
 example : firstFault 0 [.ignored, .start (.ok (cl!"a")) [.bad (cl!"dup")], .eof] = some (.attr (cl!"dup")) := by decide
 example : firstFault 0 [.ignored, .start (.ok (cl!"a")) [], .text (.ok []), .endTag, .ignored, .eof] = none ∧
     hasElement 0 [.ignored, .start (.ok (cl!"a")) [], .text (.ok []), .endTag, .ignored, .eof] = true := by decide
+
+/-- the text the correspondence check compares for "the error carries the reader's error and byte position"
+(`ER <display> <carried>`, read off the public enum by the harness) determines the error value: variant, position
+and inner error -/
+theorem C08_carried_determines (e e' : PErr) : e.carried = e'.carried ↔ e = e' :=
+  ⟨PErr.carried_injective e e', fun h => by rw [h]⟩
 
 end Xsg
